@@ -315,6 +315,35 @@ def main():
         hdr, prog, dump = read_case(path, 0)
         if prog:
             samples.append({"case": hdr, "program": prog[:1500], "implementation_dump": dump[:600]})
+    # input distribution: what the generated programs contain (measured on this run's cases)
+    def bucket(n, edges):
+        for e in edges:
+            if n <= e:
+                return "<=%d" % e
+        return ">%d" % edges[-1]
+    indist = {"first_error_kind": {}, "nesting_depth": {}, "instructions": {}, "functions": {}, "longest_chain": {},
+              "statement_totals": {}, "programs_with": {}}
+    stat_keys = ["let", "set", "call", "if", "else", "elif", "loop", "ret", "brk", "cont", "exprs", "ext"]
+    for r in rows_all:
+        if "bad" in r:
+            continue
+        kv = dict(t.split("=", 1) for t in r["feat"].split(",")[1:] if "=" in t)
+        def inc(d, k):
+            d[k] = d.get(k, 0) + 1
+        inc(indist["first_error_kind"], kv.get("first", "?"))
+        if "depth" in kv:
+            inc(indist["nesting_depth"], kv["depth"] if int(kv["depth"]) < 6 else ">=6")
+            inc(indist["longest_chain"], bucket(int(kv.get("chain", "0")), [1, 2, 3, 5, 8]))
+        inc(indist["instructions"], bucket(int(kv.get("instrs", "0")), [0, 2, 10, 30, 100]))
+        inc(indist["functions"], bucket(int(kv.get("fns", "0")), [0, 1, 2, 4]))
+        for k in stat_keys:
+            if k in kv:
+                indist["statement_totals"][k] = indist["statement_totals"].get(k, 0) + int(kv[k])
+                if int(kv[k]) > 0:
+                    inc(indist["programs_with"], k)
+        for k in ("wf", "loopok", "f2", "f3"):
+            if kv.get(k) == "true":
+                inc(indist["programs_with"], k)
     n_obl = len(obligations)
     n_dis = len([o for o in obligations if o[1]])
     level = spec["level"]
@@ -332,7 +361,7 @@ def main():
         "evaluations": n_cases, "distinct_nontrivial": nontriv,
         "rule": "programs generated by harness profiles %s from VERIF_SEED; a case is non-trivial when its function stacks hold at least %d instructions; distinct by generator seed/site" % (
             [p[0] for p in spec["profiles"]], spec.get("nontrivial_instrs", 3)),
-        "distribution": dist, "samples": samples,
+        "distribution": dist, "input_distribution": indist, "samples": samples,
         "known_findings_reproduced": sorted(known_seen), "exhaustive": False,
         "theorems": spec["theorems"], "statement": spec.get("statement", ""),
     }
